@@ -562,6 +562,12 @@ class ExprMixin:
         raise Unsupported("unary op", node)
 
     def ev_BoolOp(self, node):
+        # `x or ()` / `x or []` with x an optional container: the container or an empty one
+        if isinstance(node.op, ast.Or) and len(node.values) == 2 and isinstance(node.values[1], (ast.Tuple, ast.List)) and not node.values[1].elts:
+            v = self.eval(node.values[0])
+            if isinstance(v.ty, TOpt) and isinstance(v.ty.inner, TSet):
+                ity = v.ty.inner
+                return SV(ity, z3.If(v.ty.is_none(v.t), ity.empty(), v.ty.get(v.t)))
         # short-circuit with branching only when operands may have effects or
         # non-bool types; pure bool operands become And/Or terms
         vals = []
